@@ -11,6 +11,7 @@ import (
 
 	"github.com/makiuchi-d/gozxing"
 	"github.com/makiuchi-d/gozxing/common"
+	qrdet "github.com/makiuchi-d/gozxing/qrcode/detector"
 	"pgregory.net/rapid"
 
 	"verif/internal/hx"
@@ -222,6 +223,74 @@ func checkTransform(raw json.RawMessage) error {
 		q2s.TransformPoints(p)
 		if math.Abs(p[0]-st[0]) > 1e-6 || math.Abs(p[1]-st[1]) > 1e-6 {
 			return fmt.Errorf("QuadrilateralToSquare(SquareToQuadrilateral(%v)) = %v for quadrilateral %v", st, p, c.Dst)
+		}
+	}
+	return nil
+}
+
+// QTCase: the transform the QR detector builds from the three finder-pattern centres and (when one was
+// found) the alignment-pattern centre. By the symbol's geometry the finder centres are the grid points
+// (3.5,3.5), (dim-3.5,3.5), (3.5,dim-3.5) and the alignment centre is (dim-6.5,dim-6.5); the transform
+// must map each of them onto the image point that was found and agree with the unique projective map
+// through the four pairs. Without an alignment pattern the fourth corner is the parallelogram point.
+type QTCase struct {
+	Dim   int          `json:"dim"`
+	TL    [2]float64   `json:"tl"`
+	TR    [2]float64   `json:"tr"`
+	BL    [2]float64   `json:"bl"`
+	Align *[2]float64  `json:"align,omitempty"`
+	Pts   [][2]float64 `json:"pts"` // probe grid points as fractions of the grid
+}
+
+func checkQRTransform(raw json.RawMessage) error {
+	var c QTCase
+	if err := json.Unmarshal(raw, &c); err != nil {
+		return fmt.Errorf("hx: %v", err)
+	}
+	d := float64(c.Dim)
+	src := [8]float64{3.5, 3.5, d - 3.5, 3.5, d - 3.5, d - 3.5, 3.5, d - 3.5}
+	dst := [8]float64{c.TL[0], c.TL[1], c.TR[0], c.TR[1], c.TR[0] - c.TL[0] + c.BL[0], c.TR[1] - c.TL[1] + c.BL[1], c.BL[0], c.BL[1]}
+	var ap *qrdet.AlignmentPattern
+	if c.Align != nil {
+		src[4], src[5] = d-6.5, d-6.5
+		dst[4], dst[5] = c.Align[0], c.Align[1]
+		ap = qrdet.NewAlignmentPattern(c.Align[0], c.Align[1], 1)
+	}
+	if !wellShaped(src) || !wellShaped(dst) {
+		return fmt.Errorf("hx: not a well-shaped quadrilateral pair")
+	}
+	co, ok := solveProjective(src, dst)
+	if !ok {
+		return fmt.Errorf("hx: degenerate")
+	}
+	tr := qrdet.Detector_createTransform(gozxing.NewResultPoint(c.TL[0], c.TL[1]), gozxing.NewResultPoint(c.TR[0], c.TR[1]), gozxing.NewResultPoint(c.BL[0], c.BL[1]), ap, c.Dim)
+	scale := 0.0
+	for _, v := range dst {
+		scale = math.Max(scale, math.Abs(v))
+	}
+	pts := append([]float64(nil), src[:]...)
+	tr.TransformPoints(pts)
+	names := []string{"top-left finder centre", "top-right finder centre", "alignment centre", "bottom-left finder centre"}
+	if ap == nil {
+		names[2] = "parallelogram corner"
+	}
+	for i := 0; i < 8; i++ {
+		if math.Abs(pts[i]-dst[i]) > 1e-6*math.Max(1, scale) {
+			return fmt.Errorf("QR detector transform for dimension %d: grid point (%v,%v) (%s) maps to (%v,%v), the point found in the image is (%v,%v)", c.Dim, src[i/2*2], src[i/2*2+1], names[i/2], pts[i/2*2], pts[i/2*2+1], dst[i/2*2], dst[i/2*2+1])
+		}
+	}
+	for _, st := range c.Pts {
+		x, y := st[0]*d, st[1]*d
+		u, v, ok := applyProjective(co, x, y)
+		if !ok {
+			continue
+		}
+		p := []float64{x, y}
+		tr.TransformPoints(p)
+		if !relClose(p[0], u, scale) || !relClose(p[1], v, scale) {
+			uf, _ := u.Float64()
+			vf, _ := v.Float64()
+			return fmt.Errorf("QR detector transform for dimension %d (finder centres %v %v %v, alignment %v): grid point (%v,%v) maps to (%v,%v), the projective map through the four centres gives (%v,%v)", c.Dim, c.TL, c.TR, c.BL, c.Align, x, y, p[0], p[1], uf, vf)
 		}
 	}
 	return nil
@@ -546,6 +615,7 @@ func TestCheck(t *testing.T) {
 		c.Register("sample", checkSample)
 		c.Register("nudge", checkNudge)
 		c.Register("edge", checkEdge)
+		c.Register("qr_transform", checkQRTransform)
 	}, func(c *hx.Ctx) {
 		c.Rapid("transform_vs_projective_solve", c.N(4000, 40000), func(t *rapid.T) {
 			src, k1 := genQuad(t, "src", rapid.Float64Range(-50, 200).Draw(t, "scx"), rapid.Float64Range(-50, 200).Draw(t, "scy"), rapid.Float64Range(4, 180).Draw(t, "ssize"))
@@ -593,6 +663,56 @@ func TestCheck(t *testing.T) {
 			raw, _ := json.Marshal(h)
 			c.Note("transform_histories", fmt.Sprintf("pairs=%d;one_corner_moved=%d", len(h.Pairs), min(oneCorner, 2)), len(h.Pairs) > 1, hx.Hash(raw), func() any { return h })
 			if err := c.Eval("transform_history", h); err != nil {
+				t.Fatalf("%v", err)
+			}
+		})
+		c.Rapid("qr_detector_transform", c.N(1500, 20000), func(t *rapid.T) {
+			ver := rapid.IntRange(1, 40).Draw(t, "version")
+			dim := 17 + 4*ver
+			d := float64(dim)
+			// where the four corner grid points (3.5,3.5) .. lie in the picture: any well-shaped quadrilateral
+			mod := rapid.Float64Range(1, 8).Draw(t, "module")
+			q, kind := genQuad(t, "img", rapid.Float64Range(0, 400).Draw(t, "cx"), rapid.Float64Range(0, 400).Draw(t, "cy"), 2*mod*d)
+			if !wellShaped(q) {
+				t.Skip("not well shaped")
+			}
+			cs := QTCase{Dim: dim, TL: [2]float64{q[0], q[1]}, TR: [2]float64{q[2], q[3]}, BL: [2]float64{q[6], q[7]}}
+			withAlign := ver >= 2 && rapid.IntRange(0, 3).Draw(t, "align") != 0
+			frac := false
+			if withAlign {
+				corners := [8]float64{3.5, 3.5, d - 3.5, 3.5, d - 3.5, d - 3.5, 3.5, d - 3.5}
+				co, ok := solveProjective(corners, q)
+				if !ok {
+					t.Skip("degenerate")
+				}
+				ax, ay, ok := evalF(co, d-6.5, d-6.5)
+				if !ok {
+					t.Skip("degenerate")
+				}
+				// the centre that was found: within half a module of the ideal place, at any sub-pixel position
+				ax += rapid.Float64Range(-0.5, 0.5).Draw(t, "jx") * mod * 0.5
+				ay += rapid.Float64Range(-0.5, 0.5).Draw(t, "jy") * mod * 0.5
+				if rapid.IntRange(0, 4).Draw(t, "whole") == 0 {
+					ax, ay = math.Round(ax), math.Round(ay)
+				}
+				frac = ax != math.Floor(ax) || ay != math.Floor(ay)
+				cs.Align = &[2]float64{ax, ay}
+				dst := [8]float64{q[0], q[1], q[2], q[3], ax, ay, q[6], q[7]}
+				if !wellShaped(dst) {
+					t.Skip("not well shaped")
+				}
+			} else {
+				dst := [8]float64{q[0], q[1], q[2], q[3], q[2] - q[0] + q[6], q[3] - q[1] + q[7], q[6], q[7]}
+				if !wellShaped(dst) {
+					t.Skip("not well shaped")
+				}
+			}
+			for i := 0; i < 6; i++ {
+				cs.Pts = append(cs.Pts, [2]float64{rapid.Float64Range(0.02, 0.98).Draw(t, "s"), rapid.Float64Range(0.02, 0.98).Draw(t, "t")})
+			}
+			raw, _ := json.Marshal(cs)
+			c.Note("qr_detector_transform", fmt.Sprintf("quad=%s;alignment=%v;fractional_centre=%v", kind, withAlign, frac), withAlign, hx.Hash(raw), func() any { return cs })
+			if err := c.Eval("qr_transform", cs); err != nil {
 				t.Fatalf("%v", err)
 			}
 		})
